@@ -1527,6 +1527,12 @@ def constrain_sum_bounded(x: np.array, s: float, lb: np.array, ub: np.array) -> 
     """
     tolerance = 1e-6
 
+    if s == 0:
+        # A total of zero can only be met by spending nothing on every program (nb. normalizing by `s` below would divide by zero)
+        if np.all(lb <= 0):
+            return np.zeros(x.shape)
+        raise FailedConstraint()
+
     # Normalize values
     x0_scaled = x / (x.sum() or 1)  # Normalize the initial values, unless they sum to 0 (i.e., they are all zero)
     lb_scaled = lb / s
